@@ -89,6 +89,11 @@ TBulk ==
   /\ Is("bulk")
   /\ E.constructed = E.keys /\ E.finalized = E.keys /\ E.dup = 0 /\ E.early = 0 /\ E.cbs = E.dels
   /\ UNCHANGED obsvars
+\* a forced Close right after the table grew (handles still held): every value constructed was finalised, once
+TGrowClose ==
+  /\ Is("growclose")
+  /\ E.constructed = E.keys /\ E.finalized = E.keys /\ E.dup = 0
+  /\ UNCHANGED obsvars
 TEnd ==
   /\ Is("end")
   /\ mode # "open" /\ DOMAIN hnd = {} /\ DOMAIN vals = {} /\ DOMAIN dels = {}
@@ -104,7 +109,7 @@ TraceNext ==
   /\ l <= Len(Trace)
   /\ l' = l + 1
   /\ \/ Reset \/ TConstruct \/ TGetEnd \/ TRelBegin \/ TFinalize \/ TDelBegin \/ TDelfunc \/ TDelEnd
-     \/ TCloseBegin \/ TQuiesce \/ TBulk \/ TEnd \/ TOther
+     \/ TCloseBegin \/ TQuiesce \/ TBulk \/ TGrowClose \/ TEnd \/ TOther
   /\ UNCHANGED <<bad, node, lruq, cap, th, nvid, nd>>
   /\ TLCSet(1, IF TLCGet(1) < l' THEN l' ELSE TLCGet(1))
 
